@@ -1489,6 +1489,9 @@ def s_lower(it, s):
 
 @method(STR_METHODS, "encode")
 def s_encode(it, s, *a):
+    c = concrete_of(s)
+    if isinstance(c, str) and not has_sym(a):
+        return c.encode(*a)   # a term built from constants only
     raise OutOfSubset("str.encode on symbolic string")
 
 
